@@ -175,6 +175,14 @@ def run(tier):
                     break
         if w[1] == "none" and w[2] == "-" and not line.startswith("N=fail"):
             unb[key] = scheds
+            # the verified model's DFS over the same program enumerates every leaf of the choice tree exactly once (C09 theorems
+            # over Sched/Dfs.v, script completeness of the engine): a leaf it visits and the crate does not is a schedule never visited
+            mitems = [x for x in pmo[k].split(" | ") if "S=" in x]
+            msch = [x.split(":R=")[0].split("S=")[1] for x in mitems]
+            if not bad and not pmo[k].startswith("N=fail") and len(msch) < 2900:
+                lost = [x for x in msch if x not in set(scheds)]
+                if lost:
+                    bad = "check_dfs never visits %d of the %d schedules of this program (first: %s)" % (len(lost), len(msch), lost[0])
         if bad:
             nfail += 1
             if nfail <= 6:
